@@ -75,6 +75,22 @@ pub trait MetadataClient: Send + Sync {
     async fn complete_compaction(&self, source_chunks: &[String], target_chunk: &str)
         -> Result<()>;
 
+    /// Publish a merged chunk and retire its sources in one step.
+    ///
+    /// Fails without any effect if one of the sources is no longer in the catalog
+    /// (another compactor already replaced it, or retention removed it): publishing
+    /// the target then would duplicate or resurrect rows. Backends should override
+    /// this with a single atomic catalog update; the default registers the target
+    /// and then swaps.
+    async fn complete_compaction_with_target(
+        &self,
+        source_chunks: &[String],
+        target: &ChunkMetadata,
+    ) -> Result<()> {
+        self.register_chunk(&target.path, target).await?;
+        self.complete_compaction(source_chunks, &target.path).await
+    }
+
     /// Update compaction job status
     async fn update_compaction_status(&self, job_id: &str, status: CompactionStatus) -> Result<()>;
 
